@@ -20,7 +20,7 @@ from harness.pool import run_tasks
 LEVEL = "model_checking"
 STANDINS = {
     "J2O_OptFacts.tla": '---- MODULE J2O_OptFacts ----\nPassNames == <<"name_fix">>\n====\n',
-    "J2O_VocabFacts.tla": '---- MODULE J2O_VocabFacts ----\nEXTENDS TLC\nLayoutSets == ("A" :> {"Relu"})\nClassOf == ("Relu" :> "pointwise")\n====\n',
+    "J2O_VocabFacts.tla": '---- MODULE J2O_VocabFacts ----\nEXTENDS TLC\nLayoutSets == ("A" :> {"Relu"})\nClassOf == ("Relu" :> "pointwise")\nIntPreserving == {"Reshape"}\nIntClassOf == ("Reshape" :> "selects_first")\n====\n',
 }
 
 
@@ -34,7 +34,9 @@ def _vocab_facts_job():
     from harness.vocabreplay import impl_sets, op_class
 
     sets = impl_sets()
-    return {"sets": sets, "classes": {o: op_class(o) for v in sets.values() for o in v}}
+    from harness.vocabreplay import int_class
+
+    return {"sets": sets, "classes": {o: op_class(o) for v in sets.values() for o in v}, "int_classes": {o: int_class(o) for k, v in sets.items() if "INTEGER_VALUE" in k for o in v}}
 
 
 def _vocab_replay_job(graphs):
@@ -58,7 +60,8 @@ def vocabulary_sweep(ctx: Ctx, prop: str = "C02") -> int:
     ctx.extra["vocabulary_unclassified_ops"] = sorted(o for o, c in classes.items() if c == "unknown")
     if layout:
         facts = ("---- MODULE J2O_VocabFacts ----\nEXTENDS TLC\nLayoutSets == " + tla({k: set(v) for k, v in layout.items()})
-                 + "\nClassOf == " + tla({o: classes[o] for v in layout.values() for o in v}) + "\n====\n")
+                 + "\nClassOf == " + tla({o: classes[o] for v in layout.values() for o in v})
+                 + "\nIntPreserving == " + tla(set(fj["result"]["int_classes"])) + "\nIntClassOf == " + (tla(fj["result"]["int_classes"]) if fj["result"]["int_classes"] else '("none" :> "unknown")') + "\n====\n")
         rv = run_tlc("J2O_Vocab", "MC_Vocab.cfg", gen_files={"J2O_VocabFacts.tla": facts}, timeout=900, coverage=False)
         tlc_must_pass(rv, "J2O_Vocab")
         ctx.add_tlc(rv, "J2O_Vocab")
